@@ -263,10 +263,11 @@ def proof_step(pid):
     # Props/<pid>Src.lean: theorems over definitions translated from the source, kept in their own
     # module so that other properties' proofs do not depend on them
     mods = ["Ark.Props." + pid]
-    srcp = os.path.join(LEAN, "Ark", "Props", pid + "Src.lean")
-    if os.path.exists(srcp):
-        names = names + theorems_in(srcp)
-        mods.append("Ark.Props." + pid + "Src")
+    for suffix in ("Src", "Top"):
+        srcp = os.path.join(LEAN, "Ark", "Props", pid + suffix + ".lean")
+        if os.path.exists(srcp):
+            names = names + theorems_in(srcp)
+            mods.append("Ark.Props." + pid + suffix)
     info["theorems"] = names
     info["obligations"] = len(names)
     # (re)write the audit file from the theorem list
@@ -765,7 +766,7 @@ def main(argv):
                                    (" | source fragments the translator could not handle: " + "; ".join(fp)[:800]) if fp else ""),
                                "broken_theorems": proof_info.get("failed", []), "fragment_problems": fp, "ops": []})
         if tier == "thorough":
-            lmods = ["Ark.Props." + pid] + (["Ark.Props." + pid + "Src"] if os.path.exists(os.path.join(LEAN, "Ark", "Props", pid + "Src.lean")) else [])
+            lmods = ["Ark.Props." + pid] + ["Ark.Props." + pid + sfx for sfx in ("Src", "Top") if os.path.exists(os.path.join(LEAN, "Ark", "Props", pid + sfx + ".lean"))]
             for lm in lmods:
                 rc, out, err = sh(["lake", "env", "leanchecker", lm], cwd=LEAN, timeout=1800)
                 proof_info["leanchecker_rc"] = max(rc, proof_info.get("leanchecker_rc", 0))
